@@ -80,6 +80,27 @@ fn std_cov(kind: &CovKind, keys: &Keys) -> Vec<u8> {
 }
 
 impl Scenario {
+    /// per step: accepted / refused (which error a parallel phase reports may differ) and the state after it; the
+    /// text of the operation is left out (a block lists its transactions in HashSet order)
+    fn signature(&self) -> Vec<String> {
+        let mut v = vec![self.init.clone()];
+        for st in &self.steps {
+            let i = st.rfind("; st_code := ").unwrap_or(0);
+            let tail = &st[i + "; st_code := ".len().min(st.len() - i)..];
+            let n = tail.find(|c: char| !c.is_ascii_digit()).unwrap_or(tail.len());
+            v.push(format!("{}{}", if &tail[..n] == "0" { "ok" } else { "refused" }, &tail[n..]));
+        }
+        v
+    }
+    pub fn compare_rerun(&mut self, again: &Scenario) {
+        let (a, b) = (self.signature(), again.signature());
+        if a == b { return; }
+        let k = a.iter().zip(b.iter()).position(|(x, y)| x != y).unwrap_or(a.len().min(b.len()));
+        let what = format!("executing the same history a second time in the same process differs from the first execution at step {} ({} vs {} steps; first: {}; second: {})",
+            k, a.len() - 1, b.len() - 1, self.log.get(k.saturating_sub(1)).cloned().unwrap_or_default(), again.log.get(k.saturating_sub(1)).cloned().unwrap_or_default());
+        self.viol("C03", what.clone());
+        self.viol("C04", what);
+    }
     pub fn viol(&mut self, prop: &str, what: String) { let st = self.steps.len(); self.violates.push((st, prop.to_string(), what)); }
     pub fn tag(&mut self, class: &str) { let st = self.steps.len(); self.class.push((st, class.to_string())); }
     pub fn bump(&mut self, k: &str) { *self.counters.entry(k.to_string()).or_insert(0) += 1; }
@@ -1105,7 +1126,17 @@ pub fn run(tier: &str, seed: u64, em: &mut Emitter) {
         defs.clear(); names.clear(); metas.clear();
     };
     let mut rd = r.fork();
-    for mut sc in directed(&mut rd) {
+    // every history is executed twice in this process; the second execution must reproduce the first
+    // (accept / reject pattern and every state), otherwise some state outside the arguments leaks between calls
+    let rd_again = Rng(rd.0);
+    let mut first = directed(&mut rd);
+    {
+        let mut rd2 = rd_again;
+        let second = directed(&mut rd2);
+        for (a, b) in first.iter_mut().zip(second.iter()) { a.compare_rerun(b); }
+        st.add("histories_re_executed", second.len() as u64);
+    }
+    for mut sc in first {
         for (c, v) in &sc.counters { st.add(c, *v); }
         st.add("steps", sc.steps.len() as u64);
         st.bump("directed_scenarios");
@@ -1119,7 +1150,9 @@ pub fn run(tier: &str, seed: u64, em: &mut Emitter) {
         let mut rr = r.fork();
         let name = format!("sc{}", i);
         let nblocks = rr.range(2, if tier == "thorough" { 8 } else { 5 }) as usize;
+        let mut rr2 = Rng(rr.0);
         let mut sc = run_scenario(&name, &mut rr, nblocks);
+        { let again = run_scenario(&name, &mut rr2, nblocks); sc.compare_rerun(&again); st.bump("histories_re_executed"); }
         for (c, v) in &sc.counters { st.add(c, *v); }
         st.add("steps", sc.steps.len() as u64);
         st.bump(&format!("net_{:?}", sc.ustate().verif_network()));
